@@ -3,7 +3,7 @@ from propslib import comp_scope
 
 PROP = dict(
     extract=["editor"],
-    lean_targets=["Chewing.Props.C01", "Chewing.Props.EditorTie"],
+    lean_targets=["Chewing.Props.C01", "Chewing.Props.C01EditorTie"],
     runs=[
         # pure Rust API: every operation is a transcript record the model recomputes (panic outcomes included);
         # oracle_c01.rs reports every panic / hang of an operation or of a read-only accessor
